@@ -13,6 +13,14 @@ CHECKS = {
          'Explicit-state BFS over the real fixed method (state = full snapshot, transition = real key/backspace call), closed at composition length 4 (quick) / 5 (thorough) over a 25-symbol alphabet with one representative per character class, for all 16 helper settings; on every transition the returned text is compared with a reference step() written from the statement.',
          'Bounded by the alphabet (one representative per class) and the length bound; the reference step() is the harness\'s reading of the statement; inputs for which the statement defines no result are counted as unspecified.', '4/C12'),
 }
+CHECKS.update({
+ 'C13': ('model_checking', 'explicit-state BFS over the real FixedMethod, reph key judged in every state',
+         'Explicit-state BFS over the real fixed method over a 17-symbol alphabet (reph key included), closed at composition length 5 (quick) / 6 (thorough), under 16 settings of the other helpers with old reph on and again off. The reph key is judged in every state: conservation (single insertion of the reph) everywhere, placement against a syllable-grammar reference on every well-formed text, plain append with the option off.',
+         'Bounded by alphabet and length; the grammar and placement rule are the reading of the statement by the harness; texts outside the grammar get the conservation clause only.', '4/C13'),
+ 'C14': ('model_checking', 'exhaustive enumeration of syllable words typed into paired real contexts (differential)',
+         'Every word of <= 2 syllable units over a 1 515-unit set (conjuncts via hasanta / ro-fola / zo-fola, all sign kinds incl. two-part signs, chandrabindu, reph) and, in the thorough tier, <= 3 units over a reduced set, typed in typewriter order with the option on and in Unicode order with it off under all 16 settings of the other helpers; texts must be equal. Every waiting-sign point is checked for not-shown / ongoing / discarded-by-one-backspace.',
+         'Differential oracle (no expected value): a bug common to both orders is invisible here (C12 covers the Unicode-order side). Bounded by the unit set and word length.', '4/C14'),
+})
 NOT_YET = {}
 props = [json.loads(l) for l in open(os.path.join(V,'properties.jsonl'))]
 checks = []
